@@ -202,6 +202,8 @@ def run(shard, ctx):
         if c.xfer in ("read", "write", "writesame") and c.facade:
             for _ in range(3 if shard["small"] else 40):
                 two_facades(ctx, c, setname, rng)
+            for _ in range(6 if shard["small"] else 80):
+                attached_facade(ctx, c, setname, rng)
         for a in cases(c, rng, shard):
             i += 1
             if a.pop("_huge", False):
@@ -380,6 +382,63 @@ def two_facades(ctx, c, setname, rng):
             full = dict(harness.defaults(c))
             full.update(a)
             check_buffers(ctx, c, setname, "two_facades_one_device", full, sent.cdb, sent.datain, sent.dataout)
+
+
+def attached_facade(ctx, c, setname, rng):
+    """the facade attached for real (SCSI(dev, blocksize)) to a device whose standard INQUIRY data has every capability bit at
+    random (PROTECT, 3PC, TPGS, ENCSERV, MULTIP, CMDQUE ...): what the device says it *can* do does not change the transfer a
+    plain request announces, nor the buffers it carries"""
+    import pyscsi.pyscsi.scsi_enum_command as E
+    from pyscsi.pyscsi.scsi import SCSI
+
+    from vmon import harness
+    from vmon.spec import datain as D
+
+    f = D.FORMATS["inquiry.standard"]
+    devtype = {"sbc": 0x00, "mmc": 0x05, "ssc": 0x01, "smc": 0x08, "spc": 0x03}.get(setname, 0)
+    v = f.gen(rng)
+    v["peripheral_device_type"], v["peripheral_qualifier"] = devtype, 0
+    for flag in ("protect", "3pc", "encserv", "multip", "cmdque", "sccs", "acc"):
+        if flag in v and rng.random() < 0.6:
+            v[flag] = 1
+    std = f.encode(v)
+
+    def fill(cmd):
+        if cmd.cdb[0] == 0x12 and not cmd.cdb[1] & 1:
+            k = min(len(std), len(cmd.datain))
+            cmd.datain[:k] = std[:k]
+
+    dev = harness.Recorder(E.spc, fill)
+    bs = rng.choice([512, 520, 4096])
+    try:
+        s = SCSI(dev, bs)
+    except Exception as e:  # noqa: BLE001
+        ctx.fail("C03:attach_raises.%s" % type(e).__name__, "SCSI(dev, %d) raised %s" % (bs, e), {"inquiry": std}, exc=e)
+        return
+    if dev.opcodes is not getattr(E, setname):
+        dev.opcodes = getattr(E, setname)
+    for i in range(4):
+        a = harness.random_args(c, rng, cap=1 << 16)
+        a["blocksize"] = bs
+        if "tl" in c.args:
+            a["tl"] = rng.choice([1, 4, 8, 16])
+        a = harness.fill_derived(c, a, rng)
+        kw = harness.call_kwargs(c, a)
+        kw.pop("blocksize")
+        before = len(dev.calls)
+        try:
+            getattr(s, c.facade)(**kw)
+        except Exception as e:  # noqa: BLE001
+            ctx.fail("C03:%s.attached_facade_raises" % c.name, "%s raised %s" % (c.facade, e), {"cmd": c.name, "args": a}, exc=e)
+            continue
+        ctx.case(("attached-facade", c.name, setname, i, harness.args_repr(a), bytes(std[:8])), True,
+                 sample={"cmd": c.name, "inquiry_flags": {k: v[k] for k in ("protect", "3pc", "encserv", "multip", "cmdque") if k in v}} if ctx.want_sample() else None)
+        ctx.count("attached_facade_calls")
+        if len(dev.calls) == before + 1:
+            sent = dev.calls[-1][0]
+            full = dict(harness.defaults(c))
+            full.update(a)
+            check_buffers(ctx, c, setname, "attached_facade", full, sent.cdb, sent.datain, sent.dataout)
 
 
 def finalize(merged, tier):
